@@ -45,7 +45,8 @@ MODELLED_NOT_VERIFIED = ['numpy (astype, fancy indexing, eye, maximum, isin)', '
                          'frame decoding and frame LUT construction (C01/C05)', 'tiled-region slice arithmetic (C04)',
                          'volume geometry (C03)']
 
-DTYPES = [None, None, None, 'uint8', 'uint16', 'uint32', 'int8', 'int16', 'float32', 'float64', 'bool']
+DTYPES = [None, None, None, None, 'uint8', 'uint16', 'uint32', 'uint64', 'int8', 'int16', 'int32', 'int64', 'float32',
+          'float64', 'bool']
 DTYPE_MAX = {'uint8': 255, 'uint16': 65535, 'uint32': 2 ** 32 - 1, 'uint64': 2 ** 64 - 1, 'int8': 127, 'int16': 32767,
              'int32': 2 ** 31 - 1, 'int64': 2 ** 63 - 1, 'float32': 2 ** 127, 'float64': 2 ** 1023, 'bool': 1}
 
@@ -68,8 +69,33 @@ def _smallest_unsigned(v):
     return 'uint8' if v < 256 else ('uint16' if v < 65536 else 'uint32')
 
 
-CODE_POOL = [('T-1', '99VERIF', 'alpha'), ('T-2', '99VERIF', 'beta'), ('T-1', '99OTHER', 'alpha'),
-             ('T-3', '99VERIF', 'gamma'), ('T-2', '99VERIF', 'beta renamed')]
+# (value, scheme designator, meaning, scheme version): private codes, same value under another scheme, same code with
+# another meaning, retired SRT values next to their SCT aliases, and the same SCT code with scheme versions
+CODE_POOL = [('T-1', '99VERIF', 'alpha', None), ('T-2', '99VERIF', 'beta', None), ('T-1', '99OTHER', 'alpha', None),
+             ('T-3', '99VERIF', 'gamma', None), ('T-2', '99VERIF', 'beta renamed', None),
+             ('T-D0050', 'SRT', 'Tissue', None), ('85756007', 'SCT', 'Tissue', None),
+             ('85756007', 'SCT', 'Tissue', '2020'), ('85756007', 'SCT', 'Tissue', '2021'),
+             ('T-B7000', 'SRT', 'x', None), ('111002', 'SCT', 'x', None), ('T-ZZZZZ', 'SRT', 'unmapped', None)]
+
+
+def _srt_table():
+    try:
+        from pydicom.sr._snomed_dict import mapping
+        return mapping['SRT']
+    except Exception:  # noqa: BLE001
+        return {}
+
+
+def _code_key(c):
+    """What two codes must share to be the same concept (independent statement of the rule the standard's retirement of
+    SRT implies, using pydicom's SRT->SCT table as data): SRT values are replaced by their SCT value; value, scheme and
+    scheme version must agree."""
+    value, scheme, version = c[0], c[1], (c[3] if len(c) > 3 else None)
+    if scheme == 'SRT' and value in _srt_table():
+        value, scheme = _srt_table()[value], 'SCT'
+    return (value, scheme, version)
+
+
 LABEL_POOL = ['liver', 'Liver', 'tumor', 'tumor 2', 'kidney', 'x']
 ALGO_POOL = ['MANUAL', 'SEMIAUTOMATIC', 'AUTOMATIC']
 TRACK_POOL = ['trk-a', 'trk-b', 'trk-c']
@@ -336,6 +362,8 @@ def _requests(ctx, obj):
                     planes.insert(r.randint(0, len(planes)), 'absent')
                 if entry == 'frame' and r.random() < 0.15:
                     planes.insert(r.randint(0, len(planes)), 'beyond')
+                if entry == 'frame' and r.random() < 0.15:
+                    rq['wrong_uid'] = True
                 rq['planes'] = planes
             if entry == 'volume' and d['kind'] != 'tiled' and r.random() < 0.3:
                 R, C = d['rows'], d['cols']
@@ -529,7 +557,13 @@ def _run_read(ctx, obj, rq, frames, info):
                 if info['max_ref'] is None or f > info['max_ref']:
                     # not referenced and above every referenced frame: existence cannot be known to the object
                     must_refuse_missing = must_refuse_missing or not rq['assert_missing']
-        call = lambda: seg.get_pixels_by_source_frame(info['uid'], nums, assert_missing_frames_are_empty=rq['assert_missing'], **kw)  # noqa: E731
+        use_uid = info['uid']
+        if rq.get('wrong_uid'):
+            # an instance the object does not reference: refused unless asserted, and then every frame reads empty
+            use_uid = '1.2.3.4.5.6.7'
+            plane_masks = [None] * len(plane_masks)
+            must_refuse_missing = must_refuse_missing or not rq['assert_missing']
+        call = lambda: seg.get_pixels_by_source_frame(use_uid, nums, assert_missing_frames_are_empty=rq['assert_missing'], **kw)  # noqa: E731
         model_keys = nums
     elif entry == 'div':
         ptrs = seg.get_default_dimension_index_pointers()
@@ -671,9 +705,9 @@ def _match(rec, flt):
     for k, v in flt.items():
         if k == 'segment_label' and rec['label'] != v:
             return False
-        if k == 'segmented_property_category' and rec['category'][:2] != tuple(v[:2]):
+        if k == 'segmented_property_category' and _code_key(rec['category']) != _code_key(v):
             return False
-        if k == 'segmented_property_type' and rec['type'][:2] != tuple(v[:2]):
+        if k == 'segmented_property_type' and _code_key(rec['type']) != _code_key(v):
             return False
         if k == 'algorithm_type' and rec['algo'] != v:
             return False
@@ -756,7 +790,8 @@ def _search(ctx, obj, reqs, pending):
             ctx.fail(case, 'search refused: ' + val, site='search/numbers')
         elif [int(x) for x in val] != want:
             ctx.fail(case, f'get_segment_numbers = {list(val)}, matching descriptions {want}', site='search/numbers')
-        reqs.append(('segmentNumbers', {'descs': _descs_json(seg), 'filters': _filters_json(flt), 'ppv': _ppv(seg)}))
+        reqs.append(('segmentNumbers', {'descs': _descs_json(seg), 'filters': _filters_json(flt), 'ppv': _ppv(seg),
+                                        'srt': _srt_pairs(_descs_json(seg), flt)}))
         pending.append((case, ('ok', [int(x) for x in val]) if st == 'ok' else ('err', _err_kind(val)), 'exact'))
         # tracking ids
         flt2 = {k: v for k, v in flt.items() if k in ('segmented_property_category', 'segmented_property_type', 'algorithm_type')}
@@ -772,7 +807,8 @@ def _search(ctx, obj, reqs, pending):
             got = sorted((str(a), str(b)) for a, b in val)
             if got != want2 or len(val) != len(set(val)):
                 ctx.fail(case, f'get_tracking_ids = {got}, matching descriptions {want2}', site='search/tracking')
-            reqs.append(('trackingIds', {'descs': _descs_json(seg), 'filters': _filters_json(flt2), 'ppv': _ppv(seg)}))
+            reqs.append(('trackingIds', {'descs': _descs_json(seg), 'filters': _filters_json(flt2), 'ppv': _ppv(seg),
+                                         'srt': _srt_pairs(_descs_json(seg), flt2)}))
             pending.append((case, ('ok', [list(x) for x in got]), 'sorted-pairs'))
 
 
@@ -780,15 +816,18 @@ def _ppv(seg):
     return int(seg.PixelPaddingValue) if 'PixelPaddingValue' in seg else None
 
 
+def _code_json(c):
+    return [str(c.CodeValue), str(c.CodingSchemeDesignator),
+            str(c.CodingSchemeVersion) if 'CodingSchemeVersion' in c else None]
+
+
 def _descs_json(seg):
     """SegmentSequence as pydicom sees it (background item of label maps included)."""
     out = []
     for it in seg.SegmentSequence:
-        c = it.SegmentedPropertyCategoryCodeSequence[0]
-        t = it.SegmentedPropertyTypeCodeSequence[0]
         out.append({'number': int(it.SegmentNumber), 'label': str(it.SegmentLabel),
-                    'category': [str(c.CodeValue), str(c.CodingSchemeDesignator)],
-                    'type': [str(t.CodeValue), str(t.CodingSchemeDesignator)],
+                    'category': _code_json(it.SegmentedPropertyCategoryCodeSequence[0]),
+                    'type': _code_json(it.SegmentedPropertyTypeCodeSequence[0]),
                     'algo': str(it.SegmentAlgorithmType),
                     'tracking_id': str(it.TrackingID) if 'TrackingID' in it else None,
                     'tracking_uid': str(it.TrackingUID) if 'TrackingUID' in it else None})
@@ -796,7 +835,16 @@ def _descs_json(seg):
 
 
 def _filters_json(flt):
-    return {k: (list(v[:2]) if isinstance(v, (list, tuple)) else v) for k, v in flt.items()}
+    return {k: ([v[0], v[1], v[3] if len(v) > 3 else None] if isinstance(v, (list, tuple)) else v) for k, v in flt.items()}
+
+
+def _srt_pairs(descs, flt):
+    """The entries of pydicom's SRT->SCT table for the SRT values occurring in this call (the model takes the table as a
+    parameter)."""
+    vals = {c[0] for dsc in descs for c in (dsc['category'], dsc['type']) if c[1] == 'SRT'}
+    vals |= {v[0] for v in flt.values() if isinstance(v, (list, tuple)) and v[1] == 'SRT'}
+    t = _srt_table()
+    return [[v, t[v]] for v in sorted(vals) if v in t]
 
 
 # ------------------------------------------------------------------------------------------ model requests
@@ -829,27 +877,34 @@ def _model_request(obj, rq, frames, info, model_keys):
         tr, tc = d['tile']
         nth, ntw = -(-d['rows'] // tr), -(-d['cols'] // tc)
         keys = [kid((i * tr + 1, j * tc + 1)) for i in range(nth) for j in range(ntw)]
-        known = keys
         mode = 'all'
     elif isinstance(model_keys, tuple) and model_keys[0] == 'volume':
         keys = [kid(p) for p in model_keys[1]]
-        known = keys
         mode = 'all'
     elif entry == 'frame':
         keys = [int(k) for k in model_keys]
-        known = []
         mode = 'frame'
     elif entry == 'instance':
         keys = [kid(k) for k in model_keys]
-        known = [kid(str(s.SOPInstanceUID)) for s in obj['src']]
-        mode = 'known'
+        mode = 'instance'
     else:
         keys = [kid(k) for k in model_keys]
-        known = sorted({m['key'] for m in mframes})
-        mode = 'known'
+        mode = 'div'
+    # the instances the object references, as a third party reads them from ReferencedSeriesSequence
+    ref_uids = [str(i.ReferencedSOPInstanceUID) for ser in obj['seg'].get('ReferencedSeriesSequence', [])
+                for i in ser.get('ReferencedInstanceSequence', [])]
+    if entry == 'instance':
+        refs = [kid(u) for u in ref_uids]
+        uid = 0
+    elif entry == 'frame':
+        refs = [1] if info.get('uid') in ref_uids else []
+        uid = 0 if rq.get('wrong_uid') else 1
+    else:
+        refs, uid = [], 0
     seg = obj['seg']
-    args = {'type': d['type'], 'stored': [int(x) for x in d['nums']], 'bits': int(seg.BitsStored), 'mfv': d['mfv'] or 1,
-            'npix': R * C, 'frames': mframes, 'keys': keys, 'known': known, 'mode': mode,
+    args = {'type': d['type'], 'stored': [int(x) for x in d['nums']], 'bits': int(seg.BitsStored), 'mfv': int(seg.get('MaximumFractionalValue', 1)),
+            'npix': R * C, 'frames': mframes, 'keys': keys, 'refs': refs, 'uid': uid, 'mode': mode,
+            'bg': int(seg.get('PixelPaddingValue', 0)),
             'assert_missing': bool(rq['assert_missing']) if mode != 'all' else True,
             'segs': [int(x) for x in rq['segs']], 'combine': rq['combine'], 'relabel': rq['relabel'],
             'skip': rq['skip'], 'rescale': rq['rescale'], 'dtype': rq['dtype'] or 'none'}
